@@ -364,6 +364,9 @@ def networks(max_n=6, core_weight=3, kinds=None, min_n=1):
             ]
         alts += [st.one_of(*comb)] * core_weight
     alts.append(unions(motif_rich(max_n=small), motif_rich(max_n=3), max_n))
+    if max_n >= 5:
+        # an input selecting between two rule sets over the same variables, next to an independent component
+        alts.append(unions(switched(max(3, max_n - 2)), bistable(), max_n))
     alts.append(cascade(motif_rich(max_n=3), uniform_k(min_n=1, max_n=3), max_n))
     return st.one_of(*alts)
 
